@@ -41,6 +41,27 @@ func genC17(r *vh.Runner) {
 			}
 		})
 	}
+	// directed: a reader woken by its deadline at about the moment a producer
+	// queues an item and closes
+	nw := r.Pick(40, 2000)
+	for b := 0; b < nw; b++ {
+		r.Case(fmt.Sprintf("queue-timeout-meets-close/%d", b), map[string]any{"batch": b, "histories": per}, func(c *vh.Case) {
+			for k := 0; k < per && !c.Violated(); k++ {
+				h := 10_000_000 + b*per + k
+				rng := vh.NewRand(r.Seed, "c17-tmc", h)
+				dl := rng.Pick(1, 1, 2, 3)
+				at := dl*1000 + rng.Pick(-300, -100, -30, 0, 30, 60, 100, 150, 250, 400)
+				progs := [][]qop{
+					{{Op: "setdeadline", Dms: dl}, {Op: "recv"}, {Op: "recv"}},
+					{{Op: "sleepus", Dms: at}, {Op: "send"}, {Op: "close"}},
+				}
+				if rng.Bool() {
+					progs = append(progs, []qop{{Op: "recv"}})
+				}
+				queueHistoryWith(r, c, h, progs)
+			}
+		})
+	}
 	nt := r.Pick(300, 10000)
 	for i := 0; i < nt; i++ {
 		r.Case(fmt.Sprintf("transport/%d", i), map[string]any{"program": i}, func(c *vh.Case) {
@@ -51,6 +72,12 @@ func genC17(r *vh.Runner) {
 	for i := 0; i < nc; i++ {
 		r.Case(fmt.Sprintf("close-at-handshake-end/%d", i), map[string]any{"case": i}, func(c *vh.Case) {
 			c.Bubble(func() { closeAtHandshakeEnd(r, c, i) })
+		})
+	}
+	ns := r.Pick(96, 3000)
+	for i := 0; i < ns; i++ {
+		r.Case(fmt.Sprintf("server-close-during-handshakes/%d", i), map[string]any{"case": i}, func(c *vh.Case) {
+			c.Bubble(func() { serverCloseDuringHandshakes(r, c, i) })
 		})
 	}
 	nh := r.Pick(24, 400)
@@ -203,12 +230,24 @@ type qop struct {
 }
 
 func queueHistory(r *vh.Runner, c *vh.Case, h int) {
+	queueHistoryWith(r, c, h, nil)
+}
+
+// queueHistoryWith runs preset programs when given (directed families), else generated ones.
+func queueHistoryWith(r *vh.Runner, c *vh.Case, h int, preset [][]qop) {
 	rng := vh.NewRand(r.Seed, "c17-queue", h)
 	capacity := rng.Intn(4)
 	ng := 2 + rng.Intn(5)
 	nops := 5 + rng.Intn(36)
+	if preset != nil {
+		ng, nops = len(preset), 0
+		capacity = 1 + rng.Intn(3)
+	}
 	// programs
 	progs := make([][]qop, ng)
+	if preset != nil {
+		copy(progs, preset)
+	}
 	opsAlpha := []string{"send", "send", "send", "recv", "recv", "recv", "setdeadline", "cancel", "close"}
 	closes := 0
 	for k := 0; k < nops; k++ {
@@ -226,7 +265,11 @@ func queueHistory(r *vh.Runner, c *vh.Case, h int) {
 		progs[g] = append(progs[g], o)
 	}
 	q := common.NewDeadlineChan[int](capacity)
-	pt := perturb.Install(r.Seed^uint64(h)*31, true, rng.Pick(0, 30, 60))
+	strength := rng.Pick(0, 30, 60)
+	if preset != nil {
+		strength = 100
+	}
+	pt := perturb.Install(r.Seed^uint64(h)*31, true, strength)
 	defer pt.Remove()
 	var clock atomic.Int64
 	var mu sync.Mutex
@@ -271,6 +314,8 @@ func queueHistory(r *vh.Runner, c *vh.Case, h int) {
 					do(g, qin{Op: "recv"}, func() qout { v, err := q.Recv(); return qout{Val: v, Err: errClass(err)} })
 				case "close":
 					do(g, qin{Op: "close"}, func() qout { return qout{Err: errClass(q.Close())} })
+				case "sleepus":
+					time.Sleep(time.Duration(o.Dms) * time.Microsecond)
 				case "cancel":
 					do(g, qin{Op: "cancel"}, func() qout { return qout{Err: errClass(q.Cancel(errCancelled))} })
 				case "setdeadline":
